@@ -3,12 +3,12 @@ package main
 import (
 	"bufio"
 	"bytes"
+	"encoding/hex"
 	"encoding/json"
 	"fmt"
 	"math/big"
 	"os"
 	"path/filepath"
-	"sort"
 	"strconv"
 	"strings"
 
@@ -43,16 +43,17 @@ func localise(r *vrt.Run, bin string, c *Case, txs []*refevm.Tx) string {
 	}
 	defer os.RemoveAll(dir)
 	run := runT8n(bin, c, "--trace", "--output.basedir", dir)
-	_ = run
-	// geth trace files: trace-<index among included txs>-<hash>.jsonl
+	// geth trace files: trace-<counter>-<tx hash>.jsonl; they are matched to input transactions
+	// through the transaction hashes of geth's receipts (receipt i belongs to the i-th input
+	// transaction that geth did not reject)
 	files, _ := filepath.Glob(filepath.Join(dir, "trace-*.jsonl"))
-	gsteps := map[int][]gStep{}
+	byHash := map[string][]gStep{}
 	for _, f := range files {
-		parts := strings.SplitN(filepath.Base(f), "-", 3)
+		parts := strings.SplitN(strings.TrimSuffix(filepath.Base(f), ".jsonl"), "-", 3)
 		if len(parts) < 3 {
 			continue
 		}
-		n, _ := strconv.Atoi(parts[1])
+		h := strings.ToLower(parts[2])
 		fh, err := os.Open(f)
 		if err != nil {
 			continue
@@ -63,14 +64,33 @@ func localise(r *vrt.Run, bin string, c *Case, txs []*refevm.Tx) string {
 			var s gStep
 			if json.Unmarshal(sc.Bytes(), &s) == nil && s.Output == nil && s.Gas != "" {
 				// a faulting operation is logged twice (OnOpcode, then OnFault): keep one line
-				if l := gsteps[n]; s.Error != "" && len(l) > 0 && l[len(l)-1].PC == s.PC && l[len(l)-1].Depth == s.Depth && l[len(l)-1].Op == s.Op && l[len(l)-1].Gas == s.Gas {
+				if l := byHash[h]; s.Error != "" && len(l) > 0 && l[len(l)-1].PC == s.PC && l[len(l)-1].Depth == s.Depth && l[len(l)-1].Op == s.Op && l[len(l)-1].Gas == s.Gas {
 					l[len(l)-1].Error = s.Error
 					continue
 				}
-				gsteps[n] = append(gsteps[n], s)
+				byHash[h] = append(byHash[h], s)
 			}
 		}
 		fh.Close()
+	}
+	gsteps := map[int][]gStep{} // by input transaction index
+	gIncluded := map[int]bool{}
+	if run.Out != nil && run.Out.Result != nil {
+		grej := map[int]bool{}
+		for _, rj := range run.Out.Result.Rejected {
+			grej[rj.Index] = true
+		}
+		k := 0
+		for i := range txs {
+			if grej[i] {
+				continue
+			}
+			gIncluded[i] = true
+			if k < len(run.Out.Result.Receipts) {
+				gsteps[i] = byHash["0x"+hex.EncodeToString(run.Out.Result.Receipts[k].TxHash)]
+			}
+			k++
+		}
 	}
 	// model trace per input transaction index
 	rsteps := map[int][]refevm.Step{}
@@ -85,24 +105,21 @@ func localise(r *vrt.Run, bin string, c *Case, txs []*refevm.Tx) string {
 	if perr, _ := vrt.Recover(func() { ref, _ = refevm.Transition(c.Fork, c.Pre, c.Env, txs, sink, nil) }); perr != nil {
 		return fmt.Sprintf("refevm panicked while tracing: %v", perr)
 	}
-	// geth numbers its trace files by the index of the transaction among the included ones
 	rejected := map[int]bool{}
-	for _, i := range ref.Rejected {
+	for k, i := range ref.Rejected {
 		rejected[i] = true
-	}
-	var included []int
-	for i := range txs {
-		if !rejected[i] {
-			included = append(included, i)
+		if gIncluded[i] {
+			return fmt.Sprintf("tx %d: rejected by the model (%s) but included by geth", i, ref.RejectReasons[k])
 		}
 	}
-	keys := []int{}
-	for k := range gsteps {
-		keys = append(keys, k)
-	}
-	sort.Ints(keys)
-	for pos, ti := range included {
-		gs, rs := gsteps[pos], rsteps[ti]
+	for ti := range txs {
+		if rejected[ti] {
+			continue
+		}
+		if !gIncluded[ti] {
+			return fmt.Sprintf("tx %d: included by the model but rejected by geth", ti)
+		}
+		gs, rs := gsteps[ti], rsteps[ti]
 		n := len(gs)
 		if len(rs) < n {
 			n = len(rs)
@@ -117,7 +134,10 @@ func localise(r *vrt.Run, bin string, c *Case, txs []*refevm.Tx) string {
 			if len(g.Stack) > 0 {
 				gtop = g.Stack[len(g.Stack)-1]
 			}
-			same := g.PC == m.PC && g.Op == int(m.Op) && parseU(g.Gas) == m.Gas && g.Depth == m.Depth && len(g.Stack) == len(m.Stack) && eqWord(gtop, top) && g.Refund == m.Refund
+			same := g.PC == m.PC && g.Op == int(m.Op) && parseU(g.Gas) == m.Gas && g.Depth == m.Depth && len(g.Stack) == len(m.Stack) && eqWord(gtop, top) &&
+				// geth updates the refund counter inside SSTORE's gas function, i.e. before the step is
+				// logged: at an SSTORE step its value already includes that store (checked at the next step)
+				(g.Refund == m.Refund || g.Op == 0x55)
 			if !same {
 				prev := ""
 				if k > 0 {
